@@ -262,8 +262,6 @@ def class_extra(rules, lits):
             return 'alternative keeps no symbol other than the rule itself'
         if r['keep_all'] and any(s[1] and s[2] for s in r['exp']):
             return 'keep_all with filtered terminal'
-        if r['origin'] in dir_write_tokens() or (r['alias'] or '') in dir_write_tokens():
-            return 'rule name is an attribute of WriteTokensTransformer'
 
     def reach(s):
         seen, todo = {s}, [s]
@@ -312,15 +310,41 @@ def class_extra(rules, lits):
     return None
 
 
-_DWT = None
+def internal_names():
+    """names of attributes of the classes the Reconstructor works with that are also valid rule names. The user's rule
+    names are data for the Reconstructor: a grammar that happens to use one of them (F47, repaired in /repo) must round-trip
+    like any other. The pool follows the implementation, so a new helper method is covered the day it is added."""
+    import re as _re
+    from lark.reconstruct import WriteTokensTransformer, Reconstructor
+    from lark.tree_matcher import TreeMatcher
+    pool = {'tokens', 'term_subs', 'transform', 'rules', 'parser'}
+    for c in (WriteTokensTransformer, Reconstructor, TreeMatcher):
+        pool |= set(dir(c))
+    return sorted(n for n in pool if _re.fullmatch(r'_?[a-z][a-z0-9_]*', n) and not n.startswith('__'))
 
 
-def dir_write_tokens():
-    global _DWT
-    if _DWT is None:
-        from lark.reconstruct import WriteTokensTransformer
-        _DWT = set(dir(WriteTokensTransformer)) | {'tokens', 'term_subs'}
-    return _DWT
+def name_collision_stream(ctx):
+    from lark.exceptions import LarkError
+    for nm in internal_names():
+        grammars = [
+            'start: "[" %s "]"\n%s: NAME ("," NAME)*\nNAME: /[a-z]+/\n%%ignore " "\n' % (nm, nm),
+            'start: x+\nx: NAME "+" NAME ";" -> %s\n | NAME ";"\nNAME: /[a-z]+/\n%%ignore " "\n' % nm,
+        ]
+        if not nm.startswith('_'):
+            grammars.append('start: "<" %s ">"\n?%s: NAME | "(" %s "," %s ")"\nNAME: /[a-z]+/\n%%ignore " "\n' % (nm, nm, nm, nm))
+        texts = [['[a]', '[a, b ,c]'], ['a+b; c;', 'q;'], ['<a>', '<(a,(b,c))>']]
+        for g, tx in zip(grammars, texts):
+            for kind in ('lalr', 'earley'):
+                for text in tx:
+                    try:
+                        bad = roundtrip(g, text, kind)
+                    except LarkError as e:
+                        bad = 'raised %s' % type(e).__name__
+                    ctx.count('name-collision', key=(nm, g, kind, text), nontrivial=True)
+                    if bad:
+                        ctx.violation('roundtrip-oracle', {'grammar': g, 'text': text, 'parser': kind, 'rule_name': nm,
+                                                           'detail': bad}, True,
+                                      'a rule named like an internal attribute (%s): %s' % (nm, bad))
 
 
 # ----------------------------------------------------------------------------------------------------
@@ -1178,6 +1202,7 @@ def lex_case(gtext, texts):
 
 def correspond(ctx):
     rng = ctx.rng
+    name_collision_stream(ctx)
     lex_cases = []
     rx_cases, rx_meta = [], []
     n_class = ctx.scale(75, 700) * (3 if ctx.widen else 1)
